@@ -6,7 +6,7 @@
     functions ([paths_of], [paths_to], [connected_components], ...) transcribe graph/*.go; panics
     and fuel exhaustion are the result values [Panic]/[Hang], so "returns [Ok]" includes
     termination of every loop and recursion of the model. *)
-From Algo.C14 Require Import Spec ProofsBasic ProofsTrav ProofsReach ProofsBfs ProofsScc ProofsCC.
+From Algo.C14 Require Import Spec ProofsBasic ProofsTrav ProofsReach ProofsBfs ProofsScc ProofsCC ProofsSpt ProofsTopo ProofsCycle.
 
 (** * The property at full strength *)
 Definition nonneg (es : list edge) : Prop := forall e, In e es -> (0 <= e_w e)%Z.
@@ -141,6 +141,84 @@ Proof.
   unfold g in K. rewrite mk_graph_n in K. now apply K.
 Qed.
 
+(** Clause 4 of [C14_full], fully proved: DirectedCycle terminates (recursion, cycle
+    reconstruction loop) and returns a genuine cycle iff the graph has one. *)
+Theorem C14_directed_cycle :
+  forall n es,
+    let g := mk_graph true n es in
+    exists r, directed_cycle g = Ok r /\
+      match r with Some c => is_cycle g c | None => acyclic g end.
+Proof. intros n es. exact (dc_correct (mk_graph true n es) (wf_mk_graph true n es)). Qed.
+
+(** A topological order and a cycle exclude each other (so an order accepted by [check_topo]
+    also certifies acyclicity). *)
+Theorem C14_topological_order_acyclic :
+  forall g order, topological_order g order -> acyclic g.
+Proof. exact topo_acyclic. Qed.
+
+(** Clause 5 (Topological), partial.  Proved: [Order()] answers "none" exactly when the graph
+    has a cycle (by [C14_directed_cycle], since Topological consults DirectedCycle first);
+    whenever the returned order passes [check_topo] it is a topological order.  Missing: that the
+    reverse DFS post-order of an acyclic graph always passes (checked on every generated graph
+    by the extracted checker). *)
+Theorem C14_topological_partial :
+  forall n es,
+    let g := mk_graph true n es in
+    (forall c, directed_cycle g = Ok (Some c) -> topological g = Ok None /\ ~ acyclic g) /\
+    (directed_cycle g = Ok None -> acyclic g /\ topological g <> Ok None) /\
+    (forall o r, topological g = Ok (Some (o, r)) -> check_topo g o = true ->
+                 topological_order g o /\ acyclic g).
+Proof.
+  intros n es g.
+  destruct (dc_correct g (wf_mk_graph true n es)) as [r [E H]].
+  split; [|split].
+  - intros c Ec. rewrite E in Ec. injection Ec as ->. unfold topological. rewrite E.
+    split; auto. intros A. exact (A c H).
+  - intros En. rewrite E in En. injection En as ->. split; auto.
+    unfold topological. rewrite E. destruct (orders_of g SDFS); discriminate.
+  - intros o rk _ Hc. pose proof (check_topo_sound g o (wf_mk_graph true n es) Hc) as T.
+    split; auto. eapply topo_acyclic; eauto.
+Qed.
+
+(** Checker theorem for shortest paths, unbounded: answers accepted by [check_spt] (dist s = 0,
+    every edge relaxed, every returned path a real path of exactly the returned weight) are the
+    minimum distances, and "no path" answers are right. *)
+Theorem C14_check_spt_sound :
+  forall g s out, wf g -> check_spt g s out = true ->
+    s < g_n g /\
+    forall v, v < g_n g ->
+      match nth v out None with
+      | Some (p, d) => epath g s p v /\ weight_of p = d /\
+                       forall p', epath g s p' v -> (d <= weight_of p')%Z
+      | None => forall p', ~ epath g s p' v
+      end.
+Proof. exact check_spt_sound. Qed.
+
+(** Clause 7 (Dijkstra), partial: whenever the PathTo answers of the computed tree pass the
+    checker they are correct.  Missing: that Dijkstra's output always passes for non-negative
+    weights (checked on every generated graph). *)
+Theorem C14_dijkstra_partial :
+  forall n es s t,
+    let g := mk_graph true n es in
+    shortest_path_tree g s = Ok t ->
+    check_spt g s (map (fun v => match path_to t v with Ok x => x | _ => None end) (seq 0 n)) = true ->
+    forall v, v < n ->
+      match path_to t v with
+      | Ok (Some (p, dist)) => epath g s p v /\ weight_of p = dist /\
+                               forall p', epath g s p' v -> (dist <= weight_of p')%Z
+      | Ok None => ~ reach g s v
+      | _ => True
+      end.
+Proof.
+  intros n es s t g _ Hc v Hv.
+  destruct (check_spt_sound g s _ (wf_mk_graph true n es) Hc) as [_ K].
+  unfold g in K. rewrite mk_graph_n in K. specialize (K v Hv).
+  rewrite (nth_map_seq (fun v => match path_to t v with Ok x => x | _ => None end) n v None Hv) in K.
+  destruct (path_to t v) as [[[p d]|]| |]; auto.
+  intros R. destruct (reach_epath _ (wf_mk_graph true n es) (mk_graph_dir true n es) s v R) as [p P].
+  exact (K p P).
+Qed.
+
 (** Soundness of the simple certificate checkers run on the implementation's answers. *)
 Theorem C14_check_path_sound :
   forall g s v p, check_path g s v p = true -> is_path g s v p.
@@ -168,6 +246,11 @@ Print Assumptions C14_connected_components.
 Print Assumptions C14_check_scc_sound.
 Print Assumptions C14_check_cc_sound.
 Print Assumptions C14_scc_partial.
+Print Assumptions C14_directed_cycle.
+Print Assumptions C14_topological_order_acyclic.
+Print Assumptions C14_topological_partial.
+Print Assumptions C14_check_spt_sound.
+Print Assumptions C14_dijkstra_partial.
 Print Assumptions C14_check_path_sound.
 Print Assumptions C14_check_cycle_sound.
 Print Assumptions C14_check_topo_sound.
